@@ -253,6 +253,8 @@ func storeClosure() *explore.Closure {
 			y.model[1] = map[packet.ID]packet.Generic{}
 			for _, o := range path {
 				y.apply(ops[o])
+				// queries run after every step, so that any state a query leaves behind (a cache) is on the path too
+				observe(y)
 			}
 			return y
 		},
@@ -483,6 +485,7 @@ func run(r *report.Report) {
 	for _, s := range cr.Samples {
 		r.Sample(map[string]string{"part": "store-closure", "operations": s})
 	}
+	r.RacePass()
 	// 4. concurrency
 	st := explore.Explore(explore.Config{Harness: "C18.counter-conc", Bound: 12, FreeSwitch: true, Workers: report.Workers(), Deadline: r.Deadline()})
 	r.AddExploration("counter-concurrent", "schedule", fmt.Sprintf("%d programs (shapes 2x2,1x1x1,3x2,2x1x1 over NextID/Reset, counter starting at 65534) x all interleavings", len(counterProgs)), st,
